@@ -19,7 +19,7 @@ ASSUME = [
     "per group timestamps do not decrease (the property's quantifier); times are whole seconds on an epoch that is a multiple of every 'every' used, so Go's Truncate agrees with integer arithmetic (nanosecond rounding is not covered)",
     "outputs are observed at a log() sink directly below the window and attributed to the triggering point by content; the task is stopped after the stream source has taken every written point off its input (StopTask then drains every node)",
     "fillPeriod is required to delay the first batch to a full period for every period/every combination (property text and the code at HEAD); the documentation sentence 'only applies if the period is greater than the every value' is not accepted as a licence for a partial first window",
-    "barrier messages (barrier node) and out-of-order points are not modelled",
+    "group deletion is driven through the real barrier node (idle 1s, delete): the driver works in phases and awaits the deletion of every group through the window node's working_cardinality; a phase that needed more than 0.7 s to pass the barrier node is discarded and repeated (timing decides conclusive/inconclusive only, never a verdict); periodic barriers, barriers without delete and out-of-order points within one life of a group are not driven",
     "TLC fingerprint collisions are negligible; the libflux link stub is never executed",
 ]
 
@@ -154,9 +154,10 @@ def run(sc, tier, seed):
     models = [("WindowTimeMC.tla", "WindowTime_quick.cfg" if q else "WindowTime_thorough.cfg"),
               ("WindowRingMC.tla", "WindowRing_quick.cfg" if q else "WindowRing_thorough.cfg"),
               ("WindowCountMC.tla", "WindowCount_quick.cfg" if q else "WindowCount_thorough.cfg")]
+    # barrier messages, group deletion and come-back (bound to the real node through the Quiet lines of the traces)
+    models.append(("WindowBarrierMC.tla", "WindowBarrier_quick.cfg" if q else "WindowBarrier_thorough.cfg"))
     if not q:
         models.append(("WindowRingMC.tla", "WindowRing_deep.cfg"))
-        models.append(("WindowBarrierMC.tla", "WindowBarrier_thorough.cfg"))   # growth: barrier messages (design level only)
 
     def design_level():
         per_model, results = {}, []
